@@ -220,51 +220,40 @@ class PeekAll(Terminal):
 
     def parse(self, state: ParserState, pairs: list[Pair]) -> bool:  # noqa: D102
         position = state.pos
-        stack_size = len(state.user_stack)
-        children: list[Pair] = []
 
-        for i, literal in enumerate(reversed(state.user_stack)):
-            # XXX: can `literal` be empty?
+        # Stack entries are matched back to back, without implicit trivia.
+        for literal in reversed(state.user_stack):
             if not state.input.startswith(literal, position):
                 state.fail(literal)
                 return False
-
             position += len(literal)
 
-            if i < stack_size:
-                state.parse_trivia(children)
-
         state.pos = position
-        pairs.extend(children)
         return True
 
     def generate(self, gen: Builder, matched_var: str, pairs_var: str) -> None:
         """Emit Python code for a PEEK_ALL expression."""
         gen.writeln("# <PeekAll>")
-
-        start_var = gen.new_temp("start")
-        tmp_pairs = gen.new_temp("pairs")
-
-        gen.writeln(f"{start_var} = state.pos")
-        gen.writeln(f"{tmp_pairs}: list[Pair] = []")
+        pos = gen.new_temp("pos")
+        gen.writeln(f"{pos} = state.pos")
         gen.writeln(f"{matched_var} = True")
 
-        gen.writeln("for i, literal in enumerate(reversed(state.user_stack)):")
+        # Stack entries are matched back to back, without implicit trivia.
+        peeked = gen.new_temp("peek")
+        gen.writeln(f"for {peeked} in reversed(state.user_stack):")
         with gen.block():
-            gen.writeln("if state.input.startswith(literal, state.pos):")
+            gen.writeln(f"if state.input.startswith({peeked}, {pos}):")
             with gen.block():
-                gen.writeln("state.pos += len(literal)")
-                gen.writeln(f"{matched_var} = True")
-                gen.writeln("if i < len(state.user_stack):")
-                with gen.block():
-                    gen.writeln(f"parse_trivia(state, {tmp_pairs})")
+                gen.writeln(f"{pos} += len({peeked})")
             gen.writeln("else:")
             with gen.block():
-                gen.writeln(f"state.pos = {start_var}")
                 gen.writeln(f"{matched_var} = False")
-                gen.writeln("state.fail(literal)")
+                gen.writeln(f"state.fail({peeked})")
                 gen.writeln("break")
 
+        gen.writeln(f"if {matched_var}:")
+        with gen.block():
+            gen.writeln(f"state.pos = {pos}")
         gen.writeln("# </PeekAll>")
 
     def is_pure(self, rules: dict[str, Rule], seen: set[str] | None = None) -> bool:
@@ -324,24 +313,16 @@ class PopAll(Terminal):
 
     def parse(self, state: ParserState, pairs: list[Pair]) -> bool:  # noqa: D102
         position = state.pos
-        children: list[Pair] = []
-        state.checkpoint()
 
-        while not state.user_stack.empty():
-            literal = state.user_stack.pop()
+        # Stack entries are matched back to back, without implicit trivia.
+        for literal in reversed(state.user_stack):
             if not state.input.startswith(literal, position):
-                state.restore()
                 state.fail(literal)
                 return False
-
             position += len(literal)
 
-            # TODO: don't skip trivia after the last pop
-            state.parse_trivia(children)
-
-        state.ok()
+        state.user_stack.clear()
         state.pos = position
-        pairs.extend(children)
         return True
 
     def generate(self, gen: Builder, matched_var: str, pairs_var: str) -> None:
